@@ -10,16 +10,18 @@ DRV = L.DRV01
 
 REGISTRY = {
     'id': 'C01',
-    'text': 'Lean theorems about an executable model of the three-phase parser, convert_type and the serializer: the '
-            'bracket-depth scan, one modification, lists of modifications, the start / middle / end sections and the whole '
-            'single-chain and +-joined multi-chain annotation parse back to the object they were written from, for every canonical '
-            'annotation and both include_plus settings (Canon is a decidable predicate evaluated by the driver); the model is '
-            'tied to /repo by differential correspondence on grammar-derived strings (all spelling families, 1-3 chains), and '
-            'the round-trip / expected-structure oracles run on the real code',
-    'note': 'trusted: Lean kernel, axioms propext/Classical.choice/Quot.sound, the correspondence harness, the reading of '
-            'Canon as the image of the documented grammar; numbers with more than 15 significant digits or |decimal exponent| '
-            'beyond 290 and non-ASCII text are outside the round-trip model; known finding: the crosslink joiner is written as two '
-            'backslashes but read as //',
+    'text': 'Lean theorems about an executable model of the three-phase parser, convert_type and the serializer, for every canonical '
+            'annotation (decidable predicate canon = image of the documented grammar), every length, both include_plus settings: '
+            'scan_roundtrip, parseMod_serialize, parseMods_roundtrip, parseStart_serializeStart, parseMiddle_serializeMiddle, '
+            'parseEnd_serializeEnd, parse_serialize (parse(serialize(a)) = a for single chains), serialize_fixpoint, '
+            'parse_serialize_multi_partial (any number of chains joined by +), parse_joined (the parser reads any mix of + and //), '
+            'int_value_roundtrip; parse_serialize_crosslink_false is the decide-checked counter-example for the known finding '
+            '(serializer writes two backslashes for //). The model is tied to /repo by differential correspondence on grammar-derived '
+            'strings (all spelling families, 1-3 chains), test-file strings and mutants; denotation / round-trip oracles run on the real code',
+    'note': 'trusted: Lean kernel, axioms propext/Classical.choice/Quot.sound, the correspondence harness, the reading of canon as the image '
+            'of the documented grammar (the generator output is checked against it on every run); floats with more than 15 significant '
+            'digits or decimal exponent beyond 290 and non-ASCII text are outside the round-trip model; equality proved is structural, '
+            'which implies the library multiset ==; known finding KF-C01-crosslink-backslash (pinned by a test and a doctest)',
     'technique': 'Lean 4 proof about executable model + differential correspondence',
 }
 
